@@ -89,7 +89,7 @@ fn eval_batch(table: &Table, mapfile: &str, cases: &[&ConstCase]) -> Result<Vec<
 // whatever the order.
 
 #[derive(Debug, Clone)]
-enum CE { LitI(i32), LitF(f32), Ref(usize, Option<char>), Cast(bool, Box<CE>), Bin(&'static str, Box<CE>, Box<CE>) }
+enum CE { LitI(i32), LitF(f32), Ref(usize, Option<char>), Cast(bool, Box<CE>), Bin(&'static str, Box<CE>, Box<CE>), Tern(Box<CE>, Box<CE>, Box<CE>) }
 
 fn ce_atom(ch: &mut Chooser, float: bool, types: &[bool]) -> CE {
     let mut alts: Vec<CE> = vec![];
@@ -102,8 +102,9 @@ fn ce_atom(ch: &mut Chooser, float: bool, types: &[bool]) -> CE {
     alts[ch.pick(alts.len())].clone()
 }
 fn ce_body(ch: &mut Chooser, float: bool, types: &[bool]) -> CE {
-    match ch.pick(4) {
+    match ch.pick(5) {
         0 => ce_atom(ch, float, types),
+        4 => { let c = ce_atom(ch, false, types); let a = ce_atom(ch, float, types); let b = ce_atom(ch, float, types); CE::Tern(Box::new(c), Box::new(a), Box::new(b)) },
         k => { let op = ["+", "*", "/"][k - 1]; let a = ce_atom(ch, float, types); let b = ce_atom(ch, float, types); CE::Bin(op, Box::new(a), Box::new(b)) },
     }
 }
@@ -113,6 +114,7 @@ fn ce_text(e: &CE) -> String {
         CE::Ref(j, None) => format!("K{j}"), CE::Ref(j, Some(c)) => format!("{c}K{j}"),
         CE::Cast(f, a) => format!("{}({})", if *f { "float" } else { "int" }, ce_text(a)),
         CE::Bin(op, a, b) => format!("({} {op} {})", ce_text(a), ce_text(b)),
+        CE::Tern(c, a, b) => format!("({} ? {} : {})", ce_text(c), ce_text(a), ce_text(b)),
     }
 }
 fn ce_eval(e: &CE, float: bool, vals: &[Option<Val>]) -> Option<Val> {
@@ -123,6 +125,7 @@ fn ce_eval(e: &CE, float: bool, vals: &[Option<Val>]) -> Option<Val> {
         CE::Ref(j, Some(c)) => vals[*j].as_ref().map(|v| cast(v, *c == '%')),
         CE::Cast(f, a) => { let inner = ce_eval(a, !*f, vals)?; Some(cast(&inner, *f)) },
         CE::Bin(op, a, b) => { let x = ce_eval(a, float, vals)?; let y = ce_eval(b, float, vals)?; m1_binop(op, float, &x, &y) },
+        CE::Tern(c, a, b) => { let cv = ce_eval(c, false, vals)?; let x = ce_eval(a, float, vals)?; let y = ce_eval(b, float, vals)?; Some(if cv.as_int() != 0 { x } else { y }) },
     }
 }
 
@@ -267,7 +270,7 @@ pub fn run(tier: &str) -> Report {
             Ok::<_, String>(fmt_instrs(&instrs))
         })) { Ok(r) => r, Err(p) => Err(p.signature()) }
     };
-    let exprs: Vec<(&str, bool)> = vec![("(3 + 4)", false), ("(7 / 2)", false), ("((-7) % 3)", false), ("(1 << 33)", false), ("((-8) >> 1)", false), ("((-8) >>> 28)", false), ("(2.5 * 2.0)", true), ("(1.0 / 3.0)", true), ("int(2.9)", false), ("float(3)", true), ("(5 > 3)", false), ("(2147483647 + 1)", false)];
+    let exprs: Vec<(&str, bool)> = vec![("(3 + 4)", false), ("(7 / 2)", false), ("((-7) % 3)", false), ("(1 << 33)", false), ("((-8) >> 1)", false), ("((-8) >>> 28)", false), ("(2.5 * 2.0)", true), ("(1.0 / 3.0)", true), ("int(2.9)", false), ("float(3)", true), ("(5 > 3)", false), ("(2147483647 + 1)", false), ("(2 ? 10 : 20)", false), ("(0 ? 10 : 20)", false), ("((-1) ? 1.5 : 2.5)", true), ("((6 & 4) ? 10 : 20)", false), ("(-(7))", false), ("(~5)", false), ("(!(5))", false), ("(3 && 0)", false), ("(7 % 3)", false), ("(1.5 < 2.5)", false), ("sin(0.0)", true)];
     for (e, f) in &exprs {
         let m = if *f { "mf" } else { "mS" }; let ty = if *f { "float" } else { "int" };
         let a = compile(&format!("{{ {m}({e}); }}"));
@@ -339,7 +342,7 @@ pub fn run(tier: &str) -> Report {
     }
     let n_chains = chains.len();
     rep.exhaustive = true;
-    rep.bound_completed = format!("(c2): {n_chains} const chains (2-3 consts of either type; bodies = atom or atom op atom; atoms = literal, plain / sigil-cast / int()/float() reference to an earlier const; deviations<={cbound}) x every definition order x uses before/after ({n_chain_nontrivial} with a forward reference); (a),(d): exhaustive over 19 int binops x {}^2, 11 float binops x {}^2, unary ops, casts, constant ternaries ({} cases); (b): partially-constant expressions, deviations<={bound}, depth<={depth} ({} bodies) x {} valuations; (c): {} expressions x 3 spellings + 6 definition orders", B_INT.len(), b_float().len(), cases.len(), bodies.len(), vals.len(), exprs.len());
+    rep.bound_completed = format!("(c2): {n_chains} const chains (2-3 consts of either type; bodies = atom, atom op atom or atom ? atom : atom; atoms = literal, plain / sigil-cast / int()/float() reference to an earlier const; deviations<={cbound}) x every definition order x uses before/after ({n_chain_nontrivial} with a forward reference); (a),(d): exhaustive over 19 int binops x {}^2, 11 float binops x {}^2, unary ops, casts, constant ternaries ({} cases); (b): partially-constant expressions, deviations<={bound}, depth<={depth} ({} bodies) x {} valuations; (c): {} expressions x 3 spellings + 6 definition orders", B_INT.len(), b_float().len(), cases.len(), bodies.len(), vals.len(), exprs.len());
     rep.rule = "(a) full product of operators x boundary operand sets through the real front end + const_simplify + Lowerer, emitted immediate read back; non-trivial = operand pair hits an edge (overflow, zero divisor, shift >=32 or <0, non-finite float, -0.0) or the expression was actually simplified (b)".into();
     rep.assumptions = vec!["M6 reference evaluator (i64 arithmetic + truncation, shifts mod 32, IEEE f32 via Rust)".into(), "&& and || are compared for truthiness only (DESIGN §7)".into(), "AstVm for (b)".into()];
     rep.explanation = "compile-time values compared with M6; undefined constants must be diagnosed; const-simplified expressions executed against the originals; named vs inline constants must emit identical instructions".into();
